@@ -91,6 +91,16 @@ theorem class_and_id_holes (args : List Val) (s : GoStr) (o : Obj) (pfx : Option
     | some items => simp [hc] at h; exact ⟨items, h.symm⟩
   · intro h; simp [objectID, h]
 
+/-- **Escaping loses nothing** — two different values never render the same: the escaped form determines the value. -/
+theorem htmlEscape_injective (a b : GoStr) (h : htmlEscape a = htmlEscape b) : a = b := by
+  rw [← unesc_htmlEscape a, ← unesc_htmlEscape b, h]
+
+/-- escaping distributes over any split of the value: a value assembled from pieces is escaped piece by piece -/
+theorem htmlEscape_flatten (l : List GoStr) : htmlEscape l.flatten = (l.map htmlEscape).flatten := by
+  induction l with
+  | nil => rfl
+  | cons a l ih => simp [htmlEscape_append, ih]
+
 -- PLANNED: tokenizer substitution lemma (data state / double-quoted attribute value state) and docShape (out v) = docShape (out p)
 -- PLANNED: hole structure theorem over whole templates (K₀ ++ h₁ ++ K₁ …) by induction on execKids
 -- KNOWN (recorded finding): an escaped value ending in `~☢` followed by a tag, or any content containing the marker sequences, is altered by the eraser (SentinelFree hypothesis)
